@@ -61,7 +61,14 @@ def _create_h1(data, meta) -> Histogram1D:
     binning = FixedWidthBinning(
         bin_width=(max_ - min_) / bin_count, bin_count=bin_count, min=min_
     )
-    stats = Statistics(sum=data[1:-1, 3].sum(), sum2=data[1:-1, 4].sum())
+    # (The file has no minimum / maximum: unknown rather than those of no data)
+    stats = Statistics(
+        sum=data[1:-1, 3].sum(),
+        sum2=data[1:-1, 4].sum(),
+        weight=data[1:-1, 1].sum(),
+        min=np.nan,
+        max=np.nan,
+    )
 
     hist = Histogram1D(
         binning,
@@ -97,12 +104,14 @@ def _create_h2(data, meta) -> Histogram2D:
 
     errors2 = data[:, 2].reshape(file_shape).T
     errors2 = errors2[1:-1, 1:-1]
+    missed = data[:, 1].sum() - frequencies.sum()  # The cells around the bins
 
     hist = Histogram2D(
         binnings=binnings,
         name=_get(meta, "title"),
         frequencies=frequencies,
         errors2=errors2,
+        missed=missed,
     )
 
     return hist
